@@ -238,7 +238,7 @@ func schedBuildHandler(raw json.RawMessage) (any, error) {
 		for i, a := range arg.Adds {
 			i := i
 			pa := parseAdd(a) // parsed outside the scheduled region
-			finder := wFinder{id: a.Finder, w: &w, env: e, log: log}
+			finder := newFinder(a.Finder, &w, e, log, false)
 			fns = append(fns, func() {
 				out.Adds[i] = doParsedAdd(context.Background(), b, pa, finder)
 			})
@@ -399,7 +399,7 @@ func raceHandler(raw json.RawMessage) (any, error) {
 				wg.Add(1)
 				go func(a AddCall) {
 					defer wg.Done()
-					doAdd(context.Background(), b, a, func(id string) sourcebundle.DependencyFinder { return wFinder{id: id, w: &w, env: e, log: log} })
+					doAdd(context.Background(), b, a, func(id string) sourcebundle.DependencyFinder { return newFinder(id, &w, e, log, false) })
 				}(a)
 			}
 		}
